@@ -244,6 +244,7 @@ class Builder():
         i = 0
         while i < len(self.stages):
             _i = i
+            _stages = len(self.stages)
             with self.current_stage(i):
                 stage = self.stages[i]
                 new_stage = stage.ayns.preprocess(self)
@@ -258,7 +259,8 @@ class Builder():
                 else:
                     i += 1
 
-            assert _i != i, 'infinite loop?'
+            # (a stage which expands to nothing - e.g., an included file without any document - leaves "i" where it is, but shortens the list)
+            assert _i != i or len(self.stages) < _stages, 'infinite loop?'
 
     @errors.api_entry
     def flatten(self):
